@@ -17,6 +17,7 @@ for d in sorted(glob.glob('/verif/seeded/C*-*')):
     for prop, v in (cur if cur is not None else m.get('detection', {})).items():
         keys = sorted({re.sub(r'^\s*(monitor|diff|build)\s+', r'\1:', l).split(' |')[0] for l in v['lines'] if l.startswith(('monitor', 'diff', 'build'))})
         det.append('%s exit=%d %s' % (prop, v['exit'], ', '.join(keys)))
+    if m.get('applies_to_current_tree') is False: det.append(m.get('note_current', ''))
     rows.append('| %s | %s | %s | %s |' % (os.path.basename(d), first[:110].replace('|', '/'), m.get('confirmation', '')[m.get('confirmation', '').find('tests'):].replace('|', '/')[:120], '; '.join(det).replace('|', '/')))
 open('/verif/seeded/SUMMARY.md', 'w').write('# Seeded changes and what the checks report\n\n| id | change | confirmation | checks |\n|----|--------|--------------|--------|\n' + '\n'.join(rows) + '\n')
 print(len(rows), 'rows')
